@@ -367,6 +367,7 @@ def judge_wrapped(ctx, prefix, engine_word, case, wty, shape, fname, Cls, ty, d,
 BIND_OFFSET = 20_000_000
 REACH_OFFSET = 30_000_000
 INHERIT_OFFSET = 40_000_000
+DEBUG_OFFSET = 50_000_000
 
 
 def run(ctx: C.Ctx):
@@ -381,9 +382,12 @@ def run(ctx: C.Ctx):
     if ctx.only is None or REACH_OFFSET <= ctx.only < INHERIT_OFFSET:
         # fourth stream: how the nested dataclass is reached (tagged Union, TypedDict value, ...) x absent keys
         run_reach(ctx)
-    if ctx.only is None or ctx.only >= INHERIT_OFFSET:
+    if ctx.only is None or INHERIT_OFFSET <= ctx.only < DEBUG_OFFSET:
         # fifth stream: classes related by inheritance, loaded in one history x absent keys
         run_inherit(ctx)
+    if ctx.only is None or ctx.only >= DEBUG_OFFSET:
+        # sixth stream (last: debug mode also sets the level of the library's logger for the rest of the process)
+        run_debug(ctx)
 
 
 def run_default(ctx: C.Ctx):
@@ -849,3 +853,101 @@ def run_inherit(ctx: C.Ctx):
         outs = ctx.driver.run(reqs)
         for (case, out, built), o_ in zip(pend, outs):
             compare_load(ctx, 'absent:inherit', case, out, o_, built)
+
+
+# --------------------------------------------------------------------------- sixth stream: debug mode x ways of reaching x absent keys
+
+DEBUG_FORMS = ['meta:debug_enabled', 'meta:v1_debug', 'meta:v1_debug', 'class-arg', 'class-arg']
+DEBUG_LEVELS = [True, True, 'DEBUG', 10, 'INFO']
+
+
+def run_debug(ctx: C.Ctx):
+    """Debug mode (Meta debug_enabled / v1_debug, `class X(JSONWizard, debug=..)`) is a diagnostic setting: the library wraps every
+    load hook of the class's loader into an error-decorating function.  The property is stated for every class definition, so with
+    the setting on the outcome is the same: success with defaults, else the exact MissingFields of the object in which the
+    omission occurred, whatever container / Union / TypedDict machinery (now wrapped) the error travels through."""
+    import logging
+    import warnings
+    # `class X(JSONWizard, debug=..)` calls logging.basicConfig(), which would install a stderr handler on the root logger for the
+    # rest of the process and print every generated function: give the root logger a handler that drops the records instead (the
+    # library still builds and emits them — the whole debug path runs)
+    if not logging.getLogger().handlers:
+        logging.getLogger().addHandler(logging.NullHandler())
+    rng = v1streams.sub_rng(ctx, 'debug')
+    gen.SUBS = False
+    ctx.rule += (' || DEBUG-MODE STREAM: the main classes of the reach stream (default engine: holder fields reaching the class models directly / '
+                 'through list / Optional / dict / tagged Unions / TypedDict values; v1 engine: direct / list / Optional / dict) with debug mode '
+                 'switched on for the main class — Meta debug_enabled, Meta v1_debug (True / a level), or the class argument debug=.. — ; '
+                 'subsets of the dataclass-key positions of a complete document: the same reference as without the setting (success with '
+                 'defaults at every depth, else MissingFields naming the nested class and exactly its omitted required fields) and the Lean model.')
+    ncls = ctx.quick(60, 500)
+    reqs, pend = [], []
+    idx = DEBUG_OFFSET
+    for ci in range(ncls):
+        base = v1streams.Namer(ci)
+
+        def nm(prefix='K', base=base):
+            return base('G' + prefix)
+        engine = rng.choice(['default', 'default', 'default', 'v1'])
+
+        def mk():
+            c = gen_c09_cls(rng, rng.choice([0, 0, 0, 1]), nested=True, fresh=nm, p_noinit=0.3)
+            if engine == 'v1':
+                soften_kw_only(rng, c, keep=0.0)
+            return c
+        form, level = rng.choice(DEBUG_FORMS), rng.choice(DEBUG_LEVELS)
+        root_meta = {'v1': True} if engine == 'v1' else {}
+        ty, facts = reach.gen_root(rng, nm, mk, root_meta=dict(root_meta), shapes=reach.PLAIN_SHAPES if engine == 'v1' else None, wizard=True)
+        if form == 'class-arg' and ty['info']['meta']:
+            form = 'meta:v1_debug'             # class arguments next to an inner Meta: the business of C07
+        if form == 'class-arg':
+            ty['info']['class_kw'] = {'debug': level}
+        else:
+            ty['info']['meta'] = dict(ty['info']['meta'] or {}, **{form.split(':')[1]: level})
+        facts = dict(facts, engine=engine, debug=form, level=level)
+        try:
+            with warnings.catch_warnings():
+                warnings.showwarning = lambda *a, **kw: None      # debug_enabled is deprecated; the library forces its warning to show
+                built = model.Built(ty)
+            Root = built.get(ty['info']['name'])
+        except Exception as e:
+            ctx.count('build_error')
+            ctx.notes.setdefault('build_errors', []).append(repr(e)[:300])
+            continue
+        try:
+            doc = reach.gen_doc(rng, ty, built)
+            pos = key_positions(ty, doc)
+            inner = [p for p in pos if len(p) > 1]
+            limit = ctx.quick(5, 9)
+            if len(pos) <= limit:
+                subsets = [s for r in range(len(pos) + 1) for s in itertools.combinations(pos, r)]
+            else:
+                subsets = [()] + [(p,) for p in inner[:ctx.quick(12, 40)]] + \
+                          [tuple(p for p in pos if rng.random() < rng.choice([0.1, 0.3])) for _ in range(ctx.quick(12, 120))]
+            for S in subsets:
+                i = idx
+                idx += 1
+                if ctx.done(i):
+                    break
+                if not ctx.begin_case(i):
+                    continue
+                d = delete_paths(doc, S)
+                case = {'ty': ty, 'doc': repr(d)[:600], 'deleted': repr(S), 'reach': facts}
+                ctx.seen('absent:debug', case, nontrivial=bool(S))
+                ctx.count('debug:' + form + ':' + engine)
+                with warnings.catch_warnings():
+                    warnings.showwarning = lambda *a, **kw: None
+                    out = judge_load(ctx, 'absent:debug', f'(debug mode: {form}={level!r}) ' + ('v1 ' if engine == 'v1' else ''), case, Root, ty, d, built,
+                                     dict(src=built.source))
+                st = model.StdTables()
+                st.add_json(d)
+                reqs.append({'op': 'loadv1' if engine == 'v1' else 'load', 'ty': model.enc_ty(ty), 'doc': model.enc_j(d), 'std': st.build()})
+                pend.append((case, out, built))
+        finally:
+            built.close()
+        if ctx.done(idx):
+            break
+    if ctx.model_available:
+        outs = ctx.driver.run(reqs)
+        for (case, out, built), o_ in zip(pend, outs):
+            compare_load(ctx, 'absent:debug', case, out, o_, built)
